@@ -430,7 +430,7 @@ func init() {
 	}
 	base := "seeded history of native-contract transactions (governance, side-chain registry, relayer registry, vote-router imports, privileged ops with right/wrong witnesses) cut into blocks on a producer with 0-2 followers and clean restarts; every transaction's pre/post state is observed by executing every prefix of its block on the real ledger; "
 	defs := []def{
-		{"C15", base + "oracle: a failed transaction leaves no writes, cross-chain records or events, and removing the failed transactions leaves the block's state digest unchanged. non-trivial = run with succeeding and failing transactions; distinct by chain of block hashes. 12% of the calls are failed by hook H3 after their handler produced all writes, events and cross-chain records", map[string]int{"ff": 12, "import": 8, "chain": 4, "cand": 3, "relayer": 2, "node": 2, "priv": 2, "sig": 1, "burst": 1, "delonly": 4}, []string{"block_mixing_success_and_failure", "tx_failed", "tx_succeeded", "forced_failure_after_handler", "forced_failure_of_delete_only_call"}},
+		{"C15", base + "oracle: a failed transaction leaves no writes, cross-chain records or events, and removing the failed transactions leaves the block's state digest unchanged. non-trivial = run with succeeding and failing transactions; distinct by chain of block hashes. 12% of the calls are failed by hook H3 after their handler produced all writes, events and cross-chain records", map[string]int{"bigfail": 4, "ff": 12, "import": 8, "chain": 4, "cand": 3, "relayer": 2, "node": 2, "priv": 2, "sig": 1, "burst": 1, "delonly": 4}, []string{"block_mixing_success_and_failure", "tx_failed", "tx_succeeded", "forced_failure_after_handler", "forced_failure_of_delete_only_call"}},
 		{"C32", base + "oracle: per (action, request) the set of distinct witnessed approvers; the action takes effect iff the number of them that are consensus validators in the pre-state reaches ceil(2N/3). non-trivial/distinct as C15", map[string]int{"crossaction": 4, "chain": 6, "cand": 5, "relayer": 4, "node": 3, "import": 1}, []string{"approval_fired_exactly_at_threshold", "approval_by_non_validator"}},
 		{"C33", base + "oracle: after an approval takes effect its request is no longer pending and no later approval round applies it again without a fresh request", map[string]int{"relayerdup": 3, "statevals": 4, "chain": 6, "cand": 4, "relayer": 5, "node": 1, "import": 1, "returning": 3}, []string{"approval_took_effect:approvechain", "approval_took_effect:approvecand", "approval_took_effect:approverelayer", "returning_member_approved"}},
 		{"C34", base + "oracle: pool invariants after every transaction (>=4 active, unique keys and indices, blacklisted keys cannot register) and epoch-change rules (view+1, active->consensus, quitting/black dropped, at most one per block)", map[string]int{"rejoin": 3, "cand": 6, "node": 6, "priv": 3, "chain": 1, "import": 1, "relayer": 1, "twoepochs": 4}, []string{"epoch_change", "blacknode_rejected_second_epoch_in_block"}},
@@ -465,8 +465,8 @@ func init() {
 		def{"C18", base + "oracle: operator-only operations without the witness of the operator address derived from the pre-state consensus set fail with no writes (except a due epoch change); owner/approver/voter operations signed by somebody else than the named address fail with no writes. 8% of steps are signed by a wrong key; privileged ops use 6 signing modes", map[string]int{"candop": 3, "priv": 8, "chain": 3, "cand": 3, "relayer": 2, "node": 2, "import": 2, "sig": 1, "forge": 10}, []string{"privileged_without_witness_rejected", "owner_op_without_witness_rejected", "privileged_with_operator_witness"}},
 		def{"C20", base + "oracle: per (source chain, cross-chain id) at most one acceptance; the done mark appears exactly with the acceptance; replayed rounds (same and altered payload) fail without writes", map[string]int{"ripple": 3, "import": 12, "chain": 3, "priv": 1, "cand": 1, "node": 1, "relayer": 0, "replay": 1}, []string{"import_released", "replay_rejected"}},
 		def{"C21", base + "oracle: an import whose source or destination chain is unregistered or blacklisted in the pre-state fails with no writes; whitelisting restores acceptance", map[string]int{"ripple": 3, "import": 10, "priv": 5, "chain": 4, "cand": 1, "node": 1, "relayer": 0}, []string{"import_rejected_source_gate", "import_rejected_destination_gate", "import_released", "privileged_succeeded:blackchain"}},
-		def{"C22", base + "oracle: each accepted import stores exactly one request under (destination, relay tx hash) whose content is (relay tx hash, source chain, voted message) and whose hash is the single new cross-state leaf; rejected imports add neither", map[string]int{"ripple": 3, "import": 12, "chain": 3, "priv": 1, "cand": 1, "node": 1, "relayer": 0}, []string{"ripple_import_released", "import_released"}},
-		def{"C25", base + "oracle: per message / signed subject the set of distinct voters; only pre-state consensus validators may vote; released / quorum event exactly at the first vote reaching ceil(2N/3) distinct current validators and never again", map[string]int{"ownervote": 3, "ripple": 3, "import": 8, "sig": 6, "chain": 3, "cand": 2, "node": 2, "priv": 1, "relayer": 0}, []string{"vote_threshold_reached_exactly", "vote_after_release", "sig_quorum_emitted", "sig_after_quorum", "vote_by_non_validator_rejected"}},
+		def{"C22", base + "oracle: each accepted import stores exactly one request under (destination, relay tx hash) whose content is (relay tx hash, source chain, voted message) and whose hash is the single new cross-state leaf; rejected imports add neither", map[string]int{"ripple": 3, "import": 12, "chain": 3, "priv": 5, "cand": 1, "node": 1, "relayer": 0}, []string{"ripple_import_released", "import_released"}},
+		def{"C25", base + "oracle: per message / signed subject the set of distinct voters; only pre-state consensus validators may vote; released / quorum event exactly at the first vote reaching ceil(2N/3) distinct current validators and never again", map[string]int{"sigrotate": 4, "ownervote": 3, "ripple": 3, "import": 8, "sig": 6, "chain": 3, "cand": 2, "node": 2, "priv": 1, "relayer": 0}, []string{"vote_threshold_reached_exactly", "vote_after_release", "sig_quorum_emitted", "sig_after_quorum", "vote_by_non_validator_rejected"}},
 		def{"C08", base + "oracle: for every committed block and every replica, each request record written by the block has a served proof that verifies (merkle.MerkleProve) against the block's committed cross-state root to exactly the stored record, the next header carries that root, and for every ph<h the served block proof verifies against header h's block root to block ph's hash", map[string]int{"import": 14, "chain": 3, "cand": 1, "node": 1, "priv": 1, "relayer": 0, "burst": 2, "crash": 30}, []string{"cross_proof_verified", "block_proof_verified", "crash_in_block_with_cross_chain_records"}},
 	)
 	defs = append(defs,
